@@ -1188,7 +1188,7 @@ fn main() {
         }
     }
 
-    let n = run.scale(200 * kinds.len() as u32, 3000 * kinds.len() as u32);
+    let n = run.scale(400 * kinds.len() as u32, 3000 * kinds.len() as u32);
     let seeds = run.scale(6u64, 400u64);
     run.drive_par("remote_url_roundtrip", n, 16, case_strategy(kinds.clone(), seeds), |c| judge(&run, c));
     run.finish();
